@@ -302,22 +302,46 @@ CAT_DIR = re.compile(r'<catalogRef name="([^"]*)"')
 CAT_FILE = re.compile(r'<dataset name="([^"]*) " ID=')
 
 
+N_SPELLINGS = 12
+
+
+def spellings_of(layout):
+    """(working directory or None, spelling) pairs; every one of them names layout.root"""
+    head, tail = os.path.split(layout.root)
+    sub = os.path.join(layout.root, "sub")
+    return [(None, layout.root), (None, os.path.join(head, "other", "..", tail)), (None, layout.root + "/"),
+            (None, head + "//" + tail), (None, os.path.join(head, ".", tail)), (None, os.path.join(layout.root, "sub", "..")),
+            (head, tail), (head, "./" + tail + "/"), (sub if os.path.isdir(sub) else layout.root, ".." if os.path.isdir(sub) else "."),
+            (layout.root, "."), (os.path.join(head, "other"), "../" + tail + "//"), (layout.root, "")]
+
+
 class Server:
-    def __init__(self, layout):
+    def __init__(self, layout, spell=None):
         from pydap.wsgi.app import DapServer
 
         self.layout = layout
         # the data directory as the operator spells it: canonical, through a sibling and `..`, with a trailing slash,
-        # with a doubled slash, with a `.` segment — one server object per layout, the spelling a function of the layout
-        head, tail = os.path.split(layout.root)
-        spellings = [layout.root, os.path.join(head, "other", "..", tail), layout.root + "/",
-                     head + "//" + tail, os.path.join(head, ".", tail), os.path.join(layout.root, "sub", "..")]
-        self.spelling = spellings[layout.seed_info["idx"] % len(spellings) if getattr(layout, "seed_info", None) else 0]
-        self.app = DapServer(self.spelling)
+        # with a doubled slash, with a `.` segment, through a sub-directory and `..`, and RELATIVE to the working directory
+        # of the moment the server is created (plain, `./x/`, `..` from inside, `.`, `../x//` from a sibling, `""`) —
+        # one server object per layout, the spelling a function of the layout
+        info = getattr(layout, "seed_info", None) or {}
+        k = info.get("spell", info.get("idx", 0)) if spell is None else spell
+        self.cwd, self.spelling = spellings_of(layout)[k % N_SPELLINGS]
+        old_cwd = os.getcwd()
+        if self.cwd is None:
+            self.cwd = old_cwd
+        try:
+            os.chdir(self.cwd)
+            self.app = DapServer(self.spelling)
+        finally:
+            os.chdir(old_cwd)
         self.handlers = list(self.app.handlers)
         self.exts = handler_exts(self.handlers)
         self.white = whitelist_prefixes()
         self.root_segs = segs_of(layout.root)
+        # the model is fed the spelling and the working directory, not the normal form
+        self.head = "%s %s %s" % (names_sexp(self.exts), segs_sexp(self.cwd), hexb(self.spelling.encode()))
+        self.head_normal = "%s %s" % (names_sexp(self.exts), segs_sexp(layout.root))
 
     def request(self, url):
         """run one request with recording on. Returns dict(path_info, status, ctype, cdesc, body, exc, events)"""
@@ -390,6 +414,8 @@ class Server:
     def judge(self, ctx, r):
         L = self.layout
         case = {"root": L.root_name, "layout": L.seed_info, "url": r["url"]}
+        if "spell" in r:
+            case["spell"] = r["spell"]
         fails = []
         target = spec_resolve(L.root, r["path_info"])
         tpath = "/" + "/".join(target)
@@ -435,11 +461,17 @@ class Server:
                 got = (sorted(CAT_FILE.findall(text)), sorted(CAT_DIR.findall(text)))
                 if got != (wsup, wdirs):
                     fails.append(("catalog does not list exactly the directory's entries", got, (wsup, wdirs)))
+                elif judge_order(ctx, case, "catalog datasets", CAT_FILE.findall(text)) or \
+                        judge_order(ctx, case, "catalog directories", CAT_DIR.findall(text)):
+                    fails.append(("(order)", None, None))
             else:
                 got = (sorted(LISTING_FILE.findall(text)), sorted(LISTING_DIR.findall(text)),
                        sorted(LISTING_SUP.findall(text)))
                 if got != (wfiles, wdirs, wsup):
                     fails.append(("listing does not show exactly the directory's entries", got, (wfiles, wdirs, wsup)))
+                elif judge_order(ctx, case, "files", LISTING_FILE.findall(text)) or \
+                        judge_order(ctx, case, "directories", LISTING_DIR.findall(text)):
+                    fails.append(("(order)", None, None))
         else:
             name = target[-1] if target else ""
             base = "/" + "/".join(target[:-1] + [spec_splitext_name(name)]) if target else "/"
@@ -469,7 +501,8 @@ class Server:
         if leaked:
             fails.append(("response discloses a file it was not asked for", sorted(leaked)[:3], sorted(allowed)))
         for what, obs, exp in fails:
-            ctx.oracle_fail(what, case, obs, exp, size=len(r["url"]) * 100 + L.n)
+            if what != "(order)":            # (already reported by judge_order)
+                ctx.oracle_fail(what, case, obs, exp, size=len(r["url"]) * 100 + L.n)
         return tag, bool(fails)
 
     _resp = None
@@ -588,7 +621,7 @@ def apply_step(layout, step):
 def run_history(ctx, layout, steps, meta, cases):
     """one long-lived server for the whole history; a fresh server for each request; same answers demanded"""
     long_lived = Server(layout)
-    head = "%s %s" % (names_sexp(long_lived.exts), segs_sexp(layout.root))
+    head = long_lived.head
     evs, outs = [], []
     failed = False
     for i, step in enumerate(steps):
@@ -612,8 +645,122 @@ def run_history(ctx, layout, steps, meta, cases):
         if pi.isascii() and not any(ord(c) < 32 for c in pi):
             evs.append("(%s %s)" % (hexb(pi.encode()), layout.fs_sexp()))
             outs.append(long_lived.canon(r1))
-    cases.append(("path-history %s (%s)" % (head, " ".join(evs)), "(" + " ".join(outs) + ")", dict(meta, history=steps)))
+    cases.append(("path-history-spelled %s (%s)" % (head, " ".join(evs)), "(" + " ".join(outs) + ")", dict(meta, history=steps)))
     return failed
+
+
+def parse_pattern(h):
+    """the live `handler.extensions` in the modelled fragment of `re`: (ignorecase, atoms) with atoms
+    ("star",) | ("chr", c) | ("alts", [words]) | ("eol",); None when the pattern is written outside the fragment"""
+    ext = h.extensions
+    pat, flags = (ext.pattern, ext.flags) if hasattr(ext, "pattern") else (ext, 0)
+    ic = bool(flags & re.IGNORECASE)
+    if flags & (re.DOTALL | re.MULTILINE | re.VERBOSE):
+        return None
+    i, atoms = 0, []
+    if pat.startswith("^"):
+        i = 1
+    while i < len(pat):
+        c = pat[i]
+        if pat.startswith(".*", i):
+            atoms.append(("star",))
+            i += 2
+        elif c == "\\" and i + 1 < len(pat) and not pat[i + 1].isalnum():
+            atoms.append(("chr", pat[i + 1]))
+            i += 2
+        elif c == "(":
+            j = pat.find(")", i)
+            body = pat[i + 1:j] if j > 0 else ""
+            if j < 0 or not re.fullmatch(r"[A-Za-z0-9_]*(\|[A-Za-z0-9_]*)*", body) or body.startswith("?"):
+                return None
+            atoms.append(("alts", body.split("|")))
+            i = j + 1
+        elif c == "$":
+            atoms.append(("eol",))
+            i += 1
+        elif c.isalnum() or c == "_":
+            j = i
+            while j < len(pat) and (pat[j].isalnum() or pat[j] == "_"):
+                j += 1
+            if j < len(pat) and pat[j] in "*+?{":
+                return None
+            atoms.append(("alts", [pat[i:j]]))
+            i = j
+        else:
+            return None
+    return ic, atoms
+
+
+def pattern_sexp(parsed):
+    ic, atoms = parsed
+    out = []
+    for a in atoms:
+        if a[0] == "star":
+            out.append("(star)")
+        elif a[0] == "eol":
+            out.append("(eol)")
+        elif a[0] == "chr":
+            out.append("(chr %s)" % hexb(a[1].encode()))
+        else:
+            out.append("(alts %s)" % names_sexp(a[1]))
+    return "(%d (%s))" % (1 if ic else 0, " ".join(out))
+
+
+def is_dot_ext_form(parsed):
+    """`^.*\\.(e1|e2|…)$` with IGNORECASE: the form C16_supported_iff_dot_ext is about"""
+    if parsed is None:
+        return False
+    ic, atoms = parsed
+    return ic and len(atoms) == 4 and atoms[0] == ("star",) and atoms[1] == ("chr", ".") and atoms[2][0] == "alts" \
+        and all(atoms[2][1]) and atoms[3] == ("eol",)
+
+
+def live_patterns(ctx, handlers):
+    """parsed patterns of the live handlers; a pattern that is not of the dot-extension form is a broken tie (the theorem
+    no longer speaks about this code) — the model is then fed the documented meaning, so that the correspondence shows where"""
+    out = []
+    for h in handlers:
+        parsed = parse_pattern(h)
+        if not is_dot_ext_form(parsed):
+            pat = h.extensions.pattern if hasattr(h.extensions, "pattern") else h.extensions
+            ctx.corr_checked += 1
+            ctx.corr_disagreements.append({"function": "handler pattern form (C16_supported_iff_dot_ext: ^.*\\.(e1|e2)$, IGNORECASE)",
+                                           "line": "pattern of %s" % getattr(h, "__name__", h), "impl": repr(pat),
+                                           "model": "^.*\\.(…)$ IGNORECASE", "meta": {"pattern": pat}})
+        if parsed is None:
+            parsed = (True, [("star",), ("chr", "."), ("alts", handler_exts([h])), ("eol",)])
+        out.append(parsed)
+    return out
+
+
+def own_natural_key(name):
+    """the documented order of the listing, written independently: maximal runs of ASCII digits compare as numbers, the
+    text between them as text; a name is (text, number, text, …)"""
+    out, i = [], 0
+    while True:
+        j = i
+        while j < len(name) and not ("0" <= name[j] <= "9"):
+            j += 1
+        out.append((0, name[i:j]))
+        if j == len(name):
+            return out
+        i = j
+        while j < len(name) and "0" <= name[j] <= "9":
+            j += 1
+        out.append((1, int(name[i:j])))
+        i = j
+
+
+def judge_order(ctx, case, kind, shown):
+    keys = [own_natural_key(n) for n in shown]
+    if any(keys[i] > keys[i + 1] for i in range(len(keys) - 1)):
+        ctx.oracle_fail("listing is not in natural (text/number) order", dict(case, kind=kind), shown[:12],
+                        sorted(shown, key=own_natural_key)[:12])
+        return True
+    return False
+
+
+SPELL_PARTS = ["a", "b2", "data", "..", ".", "", "x.nc", "..x", "r", "sub", "10", "a b"]
 
 
 def pure_cases(ctx, rng, handlers, exts, n):
@@ -679,6 +826,97 @@ def pure_cases(ctx, rng, handlers, exts, n):
         cases.append(("path-hashandler %s %s" % (names_sexp(exts), segs_sexp(fp)),
                       "1" if supported(fp, handlers) else "0", {"path": fp}))
         ctx.count(("handler", fp), True, tag="pure:handler")
+    # ---- the configured directory as spelled: os.path.abspath under a chosen working directory -------------------------
+    real_getcwd = os.getcwd
+    for _ in range(n // 2):
+        cwd = [x for x in (rname() for _ in range(rng.randint(0, 3))) if x not in ("", ".", "..") and "/" not in x]
+        cwdp = "/" + "/".join(cwd)
+        sp = "/".join(rng.choice(SPELL_PARTS) if rng.random() < 0.7 else rname() for _ in range(rng.randint(0, 5)))
+        r = rng.random()
+        if r < 0.45:
+            sp = "/" + sp
+        elif r < 0.55:
+            sp = "./" + sp
+        if rng.random() < 0.3:
+            sp += rng.choice(["/", "//", "/.", "/.."])
+        os.getcwd = lambda: cwdp                      # posixpath.abspath asks os.getcwd() for a relative path
+        try:
+            got = os.path.abspath(sp)
+        finally:
+            os.getcwd = real_getcwd
+        want = "/" + "/".join(spec_resolve(cwdp if not sp.startswith("/") else "/", sp))
+        if sp.startswith("//") and not sp.startswith("///"):
+            ctx.count(("abspath", cwdp, sp), False, tag="pure:abspath:leading-double-slash (outside the model)")
+            continue
+        if got != want:
+            ctx.oracle_fail("os.path.abspath differs from the stack resolver", {"pure": "abspath", "cwd": cwdp, "spelling": sp}, got, want)
+        cases.append(("path-abspath %s %s" % (names_sexp(cwd), hexb(sp.encode())), hexb(got.encode()), {"cwd": cwdp, "spelling": sp}))
+        ctx.count(("abspath", cwdp, sp), sp != got, tag="pure:abspath:%s" % ("abs" if sp.startswith("/") else "rel"))
+    # ---- the handlers' regular expressions as written, get_handler's first match ------------------------------------
+    pats = live_patterns(ctx, handlers)
+    pats_sexp = "(" + " ".join(pattern_sexp(p) for p in pats) + ")"
+    allexts = [e for p in pats for a in p[1] if a[0] == "alts" for e in a[1]] or ["csv"]
+    compiled = [re.compile(h.extensions) for h in handlers]
+    stems = ["t", "T", "old", "export_", "x.", "a.b", "", ".", "..", "a b", "x.tar", "10", "r/x", "x\n", "q?"]
+    for _ in range(n):
+        e = rng.choice(allexts)
+        e = "".join(c.upper() if rng.random() < 0.3 else c for c in e)
+        r = rng.random()
+        stem = rng.choice(stems)
+        if r < 0.35:
+            name = stem + "." + e
+        elif r < 0.55:
+            name = stem + e                                   # merely ends in the letters
+        elif r < 0.65:
+            name = stem + "." + e + rng.choice(["x", ".", " ", "\n", ".txt", "/"])
+        elif r < 0.75:
+            name = "." + e                                    # hidden file whose whole name is an extension
+        else:
+            name = rname()
+        d = [x for x in (rname() for _ in range(rng.randint(0, 2))) if x not in ("", ".", "..") and "/" not in x]
+        fp = "/" + "/".join(d + [name]) if "/" not in name else "/" + name.strip("/")
+        if not fp.isascii() or "//" in fp or fp.endswith("/") or any(x in ("", ".", "..") for x in fp.split("/")[1:]):
+            fp = "/" + "/".join(d + ["t." + e])
+        which = next((i for i, c in enumerate(compiled) if c.match(fp)), None)
+        sup = supported(fp, handlers)
+        if sup != (which is not None):
+            ctx.oracle_fail("supported() differs from the handlers' own patterns", {"pure": "supported", "path": fp}, sup, which)
+        base = fp.rsplit("/", 1)[-1]
+        documented = any(base.lower().endswith("." + x.lower()) for x in allexts) and "\n" not in fp
+        if "\n" not in fp and sup != documented:
+            ctx.oracle_fail("supported() is not 'the name ends in a dot and one of the handlers' extensions, in any case'",
+                            {"pure": "supported", "path": fp}, sup, documented)
+        h0 = rng.randrange(len(pats))
+        cases.append(("path-rematch %s %s" % (pattern_sexp(pats[h0]), hexb(fp.encode())), "1" if compiled[h0].match(fp) else "0",
+                      {"path": fp, "handler": h0}))
+        cases.append(("path-gethandler %s %s" % (pats_sexp, segs_sexp(fp)), "none" if which is None else str(which), {"path": fp}))
+        ctx.count(("rematch", fp), sup, tag="pure:rematch:%s" % ("supported" if sup else "letters-only" if base.lower().endswith(
+            tuple(x.lower() for x in allexts)) else "no"))
+    # names outside ASCII (oracle only: the line protocol is ASCII): digits of other scripts are text to `[0-9]`
+    for lst in (["\u0663", "a.txt"], ["x\u00b2", "2", "b"], ["\u0967\u0968", "12", "t.csv"], ["\uff11", "1", "a1"]):
+        try:
+            sorted(lst, key=alphanum_key)
+        except TypeError:
+            ctx.oracle_fail("sorting a directory's names raises TypeError (text chunk compared with number chunk)",
+                            {"pure": "sort", "names": lst}, "TypeError", "a sorted listing")
+        ctx.count(("sortpy-u", tuple(lst)), True, tag="pure:sortpy:non-ascii-digits")
+    # ---- alphanum_key and Python's own (partial) comparison of the keys --------------------------------------------
+    digitish = ["2020_01.csv", "1", "01", "1a", "a1", "10", "9", "f9", "f10", "f010", "t.csv", "", "_", "0", "00", "a", "B", "007b"]
+    for _ in range(n // 2):
+        lst = list(dict.fromkeys(rng.choice(digitish) if rng.random() < 0.5 else rname() for _ in range(rng.randint(0, 8))))
+        lst = [x for x in lst if x.isascii()]
+        try:
+            impl = names_sexp(sorted(lst, key=alphanum_key))
+        except TypeError:
+            impl = "(err TypeError)"
+            ctx.oracle_fail("sorting a directory's names raises TypeError (text chunk compared with number chunk)",
+                            {"pure": "sort", "names": lst}, "TypeError", "a sorted listing")
+        cases.append(("path-sortpy %s" % names_sexp(lst), impl, {"names": lst}))
+        ctx.count(("sortpy", tuple(lst)), len(lst) > 1, tag="pure:sortpy")
+        if lst:
+            k = alphanum_key(lst[0])
+            cases.append(("path-key %s" % hexb(lst[0].encode()), "(" + " ".join(
+                "(n %d)" % c if isinstance(c, int) else "(s %s)" % hexb(str(c).encode()) for c in k) + ")", {"name": lst[0]}))
     return cases
 
 
@@ -696,16 +934,16 @@ def explore(ctx, tier, search=False):
         rng = ctx.rng(label)
         idx = (ctx.seed * n_layouts + li) % (len(ROOT_NAMES) + 2)
         L = Layout(rng, idx)
-        L.seed_info = {"seed": ctx.seed, "label": label, "idx": idx}
+        L.seed_info = {"seed": ctx.seed, "label": label, "idx": idx, "spell": (ctx.seed * n_layouts + li + (5 if search else 0)) % N_SPELLINGS}
         try:
             srv = Server(L)
             exts_seen, handlers_seen = srv.exts, srv.handlers
             alpha, full = L.alphabet(rng, alpha_size)
             urls = urls_for(L, rng, alpha, full, n_sampled, 3)
             fs = L.fs_sexp()
-            head = "%s %s" % (names_sexp(srv.exts), segs_sexp(L.root))
             cases = []
             recs = {}
+            trace_line = {}
             for url in urls:
                 r = srv.request(url)
                 recs[url] = r["events"]
@@ -714,12 +952,28 @@ def explore(ctx, tier, search=False):
                 pi = r["path_info"]
                 if not pi.isascii() or any(ord(c) < 32 for c in pi):
                     continue
-                meta = {"layout": L.seed_info, "root": L.root_name, "url": url}
-                cases.append(("path-serve %s %s %s" % (head, hexb(pi.encode()), fs), impl, meta))
+                meta = {"layout": L.seed_info, "root": L.root_name, "url": url, "spelling": srv.spelling, "cwd": srv.cwd}
+                cases.append(("path-serve-spelled %s %s %s" % (srv.head, hexb(pi.encode()), fs), impl, meta))
+                trace_line[url] = "path-trace %s %s %s" % (srv.head_normal, hexb(pi.encode()), fs)
                 nseg = url.count("/")
                 ctx.count((li, url), tag not in ("notfound",), tag="%s:%s" % ("<=3" if nseg <= 3 else ">3", tag),
                           sample={"root": L.root_name, "url": url, "outcome": impl[:80]})
             ctx.correspond("DapServer.__call__ outcome", cases)
+            # every OTHER spelling of the same directory (absolute and relative), on a fixed family of requests: each must
+            # be judged like the canonical one, and the model is fed that spelling
+            scases = []
+            probe = ["/", "", "/t.csv", "/t.csv.dds", "/.csv.dds", "/sub/", "/sub/catalog.xml", "/catalog.xml", "/nope",
+                     "/../%s/secret.txt" % L.siblings[0], "/../%s/" % L.siblings[0], "/..", "/sub/../u.txt", "/oldcsv.dds",
+                     "/../%s/t.csv" % L.root_name, "/./sub/..//t.csv.das"]
+            for k in range(N_SPELLINGS):
+                sv = Server(L, spell=k)
+                for url in probe:
+                    r = sv.request(url)
+                    case_tag, failed = sv.judge(ctx, dict(r, spell=k))
+                    scases.append(("path-serve-spelled %s %s %s" % (sv.head, hexb(r["path_info"].encode()), fs), sv.canon(r),
+                                   {"layout": L.seed_info, "root": L.root_name, "url": url, "spell": k, "spelling": sv.spelling, "cwd": sv.cwd}))
+                    ctx.count((li, "spell", k, url), True, tag="spelling:%s:%s" % ("relative" if not sv.spelling.startswith("/") else "absolute", case_tag))
+            ctx.correspond("DapServer(spelling).__call__ outcome, every spelling of the data directory", scases)
             # histories (they change the layout: run last)
             interesting = [(c[2]["url"], c[1]) for c in cases if c[2]["url"].startswith("/")]
             rng.shuffle(interesting)
@@ -731,7 +985,7 @@ def explore(ctx, tier, search=False):
             ctx.correspond("DapServer over a request history (one object)", hcases)
             # the recorded accesses of the implementation are among the model's accesses (+ handler internals)
             tcases = [c for c in cases if c[1].startswith(("(listing", "(catalog", "(file", "(dap"))][:400]
-            outs = common.run_driver([c[0].replace("path-serve", "path-trace", 1) for c in tcases])
+            outs = common.run_driver([trace_line[c[2]["url"]] for c in tcases])
             for (line, impl, meta), tr in zip(tcases, outs):
                 events = recs[meta["url"]]
                 model_paths = set(re.findall(r"\((?:stat|listdir|serve|handler) (\([^()]*\))\)", tr))
@@ -778,6 +1032,35 @@ def replay(payload):
         return False
     install_hooks()
     case = f["case"]
+    if case.get("pure") == "abspath":
+        real = os.getcwd
+        os.getcwd = lambda: case["cwd"]
+        try:
+            got = os.path.abspath(case["spelling"])
+        finally:
+            os.getcwd = real
+        want = "/" + "/".join(spec_resolve(case["cwd"] if not case["spelling"].startswith("/") else "/", case["spelling"]))
+        print("abspath %r from %r -> %r, expected %r" % (case["spelling"], case["cwd"], got, want))
+        return got == want
+    if case.get("pure") == "supported":
+        from pydap.handlers.lib import load_handlers
+        from pydap.wsgi.app import supported
+        hs = list(load_handlers())
+        fp = case["path"]
+        sup = supported(fp, hs)
+        documented = any(fp.rsplit("/", 1)[-1].lower().endswith("." + x) for x in handler_exts(hs))
+        print("supported(%r) = %r, name ends in dot + extension: %r" % (fp, sup, documented))
+        return sup == documented
+    if case.get("pure") == "sort":
+        from pydap.wsgi.app import alphanum_key
+        try:
+            out = sorted(case["names"], key=alphanum_key)
+        except TypeError as e:
+            print("sorting %r raises TypeError: %s" % (case["names"], e))
+            return False
+        keys = [own_natural_key(n) for n in out]
+        print("sorted: %r" % (out,))
+        return all(keys[i] <= keys[i + 1] for i in range(len(keys) - 1))
     if "layout" not in case:
         print("pure case: %r" % (case,))
         root, path = case["root"], case["path"]
@@ -794,7 +1077,7 @@ def replay(payload):
         if "history" in case:
             failed = run_history(ctx, L, [tuple(st) for st in case["history"]], {"layout": info, "root": L.root_name}, [])
         else:
-            srv = Server(L)
+            srv = Server(L, spell=case.get("spell"))
             r = srv.request(case["url"])
             tag, failed = srv.judge(ctx, r)
         for fl in ctx.oracle_failures:
